@@ -79,6 +79,10 @@ claimed = {
    text="Proof part (all inputs): Menu.applyPage offers 'next' on every page but the last and 'previous' on every page but the first and answers an index past the page count with a BrowseError; Sizer.GetAt reports a page index past the recorded page starts as an error, copies every non-sink value unchanged, and its slice expressions cannot panic when every page start lies inside the content; Page.joinSink records exactly one page start per page after the first and (by lengths and last bytes of the builders) every page start lies inside the returned content - for every row list, remaining size and menu size; applyTarget/State.Next/Previous move the page index as the move table says (shared with C04). BOUNDED part (labelled bounded, not counted as proved): the content relation - walking the pages from index 0 shows every row exactly once and in order, static text and ordinary menu on every page, every offered entry leads to a page that renders - is checked by running the real Page.Render for every page index over all row lists up to a bound (quick: rows from {\"\",a,bb,cccc}, 1..4 rows, 12 output sizes, 4066 walks; thorough: 5 row values, 1..5 rows, 40 sizes, 155641 walks).",
    note="Known findings: H8a/H8b (proof part: a trailing empty row on a page of its own gives a page start past the trimmed content and one page start too many) = H8c (bounded part: GetAt panics on that page), H9 (empty row at the start of a page is dropped), H27 (a page offers 'next' to a page that exceeds the limit; found by the bounded harness). Builder contents, strings.Split and text/template are not modelled (lengths and last bytes only); RenderTemplate/Menu.Render/prepare have assumed frame-only contracts. Trusted: strings.Builder/TrimRight/Index stubs, vcgo translation, solvers.",
    ref="4/C02"),
+ "C16": dict(
+   text="Proof part (all inputs), the back end from parsed arguments to bytes: writeOpcode writes the two big-endian opcode bytes; writeSym writes the length byte and the text of every symbol up to 255 bytes and refuses longer ones without writing; writeSize writes 01 00 for zero and otherwise the byte count followed by exactly the big-endian bytes of the number without leading zero bytes, for every 32-bit value (four range clauses); parseTwoSym/parseTwoSymReverse/parseSized/parseSig/parseFlagged write exactly the argument groups held by the parsed line in the VM's order (symbol/selector, wildcard swap, number written back in decimal) - over a ghost content string per bytes.Buffer. BOUNDED part (labelled bounded, not counted as proved): the lexer and grammar are built by reflection (participle) and are outside the verifier's reach; assembly programs generated from the grammar (every opcode; symbols, targets, selectors incl. leading zeros/letters/mixed/wildcard, all integer widths, trailing comments, blank lines, menu batches) are assembled with the real Parse and compared with the real disassembly (quick 2224 programs, thorough 19632); numSize (math.Log2) is compared with the byte count of its argument for 4.2 million arguments (quick) / all 2^32-1 arguments (thorough: complete for that function).",
+   note="Known finding H15 (selectors starting with a digit are lexed as numbers: leading zeros dropped, letters cut) - found by the bounded part; the proof part shows the back end writes the decimal rendering of what the lexer delivered. numSize's contract is assumed in the proof part and covered by the exhaustive bounded check. Not under contract: parseOne's dispatch, Parse, Batcher, MenuProcessor.ToLines (built from vm.NewLine, whose layout is C14), io.Writer. Trusted: bytes.Buffer/strconv.FormatUint stubs, BigEndian model, vcgo translation, solvers.",
+   ref="4/C16"),
 }
 
 pending_reason = "pending: contracts for this property are not yet under vcgo (see DESIGN.md section 4)"
